@@ -9,7 +9,7 @@ import os
 import random
 import traceback
 
-from . import coredrv, tlc
+from . import watchdog, coredrv, tlc
 from . import world as W
 
 WORKER_VERBS = {"retr", "stor", "appe", "list", "mlsd"}
@@ -34,19 +34,26 @@ def run_one(args):
     lg.addHandler(cap)
     lg.setLevel(logging.ERROR)
     logging.getLogger("asyncio").setLevel(logging.CRITICAL)
+    if watchdog.POISONED[0]:
+        lg.removeHandler(cap)
+        return {"trace": [], "done": [], "errors": [], "logged": [], "crash": None, "hardhang": "skipped"}
     w = W.World(cfg, tree)
     try:
-        w.start()
-        d = coredrv.CoreDriver(w)
-        if isinstance(schedule, dict):
-            done = d.run_concurrent({int(k): v for k, v in schedule["concurrent"].items()}, schedule["seed"],
-                                    schedule.get("gate_prob", 0.3))
-        else:
-            done = d.run(schedule)
-        d.finish()
-        tr = d.trace()
+        with watchdog.guard():
+            w.start()
+            d = coredrv.CoreDriver(w)
+            if isinstance(schedule, dict):
+                done = d.run_concurrent({int(k): v for k, v in schedule["concurrent"].items()}, schedule["seed"],
+                                        schedule.get("gate_prob", 0.3))
+            else:
+                done = d.run(schedule)
+            d.finish()
+            tr = d.trace()
         errs = [str(e.get("message")) + " " + repr(e.get("exception")) for e in w.loop.errors]
         return {"trace": tr, "done": done, "errors": errs, "logged": cap.records[:5], "crash": None}
+    except watchdog.HardHang as ex:  # the server code blocked the thread: no trace, but a verdict
+        return {"trace": [], "done": [], "errors": [], "logged": cap.records[:5], "crash": None,
+                "hardhang": "".join(traceback.format_exception(type(ex), ex, ex.__traceback__))[-1500:]}
     except BaseException as ex:  # harness failure
         return {"trace": None, "done": [], "errors": [], "logged": cap.records[:5],
                 "crash": "".join(traceback.format_exception(type(ex), ex, ex.__traceback__))[-3000:]}
@@ -113,6 +120,24 @@ def validate(check, cfg, tree, schedules, *, label, procs=14, max_diag=3, sig_ex
     crashes = [r for r in results if r["crash"]]
     if crashes:
         raise RuntimeError("harness failure in %s: %s" % (label, crashes[0]["crash"]))
+    # runs in which the code under test blocked the thread itself (wall-clock guard): reported, not validated; runs skipped in a
+    # process that had already blocked once are neither
+    hung = [i for i, r in enumerate(results) if r.get("hardhang")]
+    for i in hung:
+        if results[i]["hardhang"] != "skipped":
+            check.violation({"at": "hard-hang", "family": label}, {"where": results[i]["hardhang"]}, {"cfg": cfg, "tree": tree, "schedule": schedules[i]})
+    if hung:
+        check.notes["runs_not_validated_after_hard_hang"] = check.notes.get("runs_not_validated_after_hard_hang", 0) + len(hung)
+        keep = [i for i in range(len(results)) if i not in set(hung)]
+        part = _validate_rest(check, cfg, tree, [schedules[i] for i in keep], [results[i] for i in keep], label, procs, max_diag, sig_extra)
+        out = [(schedules[i], dict(results[i], trace=[{"ev": "Init", "t": 0, "tree": tree}]), 0, 1) for i in range(len(results))]
+        for j, i in enumerate(keep):
+            out[i] = part[j]
+        return out
+    return _validate_rest(check, cfg, tree, schedules, results, label, procs, max_diag, sig_extra)
+
+
+def _validate_rest(check, cfg, tree, schedules, results, label, procs, max_diag, sig_extra):
     traces = [r["trace"] for r in results]
     res, tot = tlc.validate_traces(cfg, traces, procs=procs)
     check.add_tlc(tot)
